@@ -8,7 +8,7 @@ use vcore::rt::{self, digest, esc, Acc, Args, Report};
 use vcore::sgr::{self};
 use vcore::vt::{self, St};
 
-const RULE: &str = "Exhaustive: every SGR sequence of 1..3 attribute groups over the representative group set, from the default state and from a non-default base style, each followed by text. Generated: valid-UTF-8 streams of text, whitespace/C0 controls, G-SGR sequences (1..8 groups, <= 32 values; ';' and ':' spellings; 4:n; empty; leading zeros; unknown codes) and non-SGR sequences (other CSI finals, CSI m with private marker/intermediate, OSC, DCS, ESC, SOS/PM/APC), fed whole and in generated chunks. Oracles: (1) per-character (style, char) == reference SGR interpreter over the reference VT parser; (2) combined sequence == the same groups sent as separate sequences (extractor only); (3) stream with all non-SGR sequences deleted gives the same result. Non-trivial = a sequence with >= 2 groups, an extended colour or 4:n, followed by visible text; distinct by stream bytes.";
+const RULE: &str = "Exhaustive: every SGR sequence of 1..3 attribute groups over the representative group set, from the default state and from a non-default base style, each followed by text. Generated: valid-UTF-8 streams of text, whitespace/C0 controls, G-SGR sequences (1..8 groups, <= 32 values; ';' and ':' spellings; 4:n; empty; leading zeros; unknown codes) and non-SGR sequences (other CSI finals, CSI m with private marker/intermediate, OSC, DCS, ESC, SOS/PM/APC), fed whole and in generated chunks. Extended colours with an index or component above 255 (exhaustive family): the colour must change nothing, or the value saturate. Oracles: (1) per-character (style, char) == reference SGR interpreter over the reference VT parser; (2) combined sequence == the same groups sent as separate sequences (extractor only); (3) stream with all non-SGR sequences deleted gives the same result. Non-trivial = a sequence with >= 2 groups, an extended colour or 4:n, followed by visible text; distinct by stream bytes.";
 
 /// representative attribute groups for the exhaustive part
 const REP_GROUPS: &[&str] = &[
@@ -75,6 +75,60 @@ fn check_groups(groups: &[&str], with_base: bool) -> Result<Option<bool>, String
         ));
     }
     Ok(Some(groups.len() >= 2 || groups[0].contains([';', ':'])))
+}
+
+/// Extended colours with an index / component above 255 (`spec` is the text between `CSI` and
+/// `m`): such a value names no colour of the style type. Terminals either ignore the colour
+/// (xterm, VTE) or saturate the value; both readings of the reference interpreter are accepted,
+/// anything else - e.g. wrapping 257 round to palette colour 1 - is a violation.
+fn check_out_of_range(stream: &[u8]) -> Result<(), String> {
+    let ignore = sgr::with_out_of_range(sgr::OutOfRange::Ignore, || checks::oracle::model_chars(stream));
+    let saturate = sgr::with_out_of_range(sgr::OutOfRange::Saturate, || checks::oracle::model_chars(stream));
+    let bytewise: Vec<&[u8]> = stream.chunks(1).collect();
+    for (how, real) in [("whole", real_chars(&[stream])), ("byte by byte", real_chars(&bytewise))] {
+        if real != ignore && real != saturate {
+            let d = first_diff(&real, &ignore).unwrap_or_default();
+            return Err(format!(
+                "{} fed {how}: a colour value above 255 must change nothing (or saturate at 255); against the 'changes nothing' reading: {d}",
+                esc(stream)
+            ));
+        }
+    }
+    Ok(())
+}
+
+fn out_of_range_streams() -> Vec<Vec<u8>> {
+    const BIG: &[&str] = &["256", "257", "258", "263", "264", "265", "271", "272", "300", "0300", "511", "512", "513", "1000", "4097", "32768", "65535", "65536", "99999"];
+    const SMALL: &[&str] = &["0", "7", "255"];
+    let mut specs: Vec<String> = vec![];
+    for t in ["38", "48", "58"] {
+        for v in BIG {
+            specs.push(format!("{t};5;{v}"));
+            specs.push(format!("{t}:5:{v}"));
+        }
+        // every non-empty set of out-of-range components
+        for mask in 1..8u8 {
+            for (bi, big) in ["256", "257", "300", "65535"].iter().enumerate() {
+                let small = SMALL[(mask as usize + bi) % SMALL.len()];
+                let c: Vec<&str> = (0..3).map(|k| if mask >> k & 1 == 1 { *big } else { small }).collect();
+                specs.push(format!("{t};2;{};{};{}", c[0], c[1], c[2]));
+                specs.push(format!("{t}:2:{}:{}:{}", c[0], c[1], c[2]));
+                specs.push(format!("{t}:2::{}:{}:{}", c[0], c[1], c[2]));
+                specs.push(format!("{t}:2:0:{}:{}:{}", c[0], c[1], c[2]));
+            }
+        }
+    }
+    let mut out = vec![];
+    for spec in &specs {
+        for with_base in [false, true] {
+            for (pre, post) in [("", ""), ("", ";1"), ("", ";31;44"), ("3;", ""), ("", ";38;5;2"), ("48;2;9;8;7;", ";4:3")] {
+                let mut a = if with_base { BASE.to_vec() } else { vec![] };
+                a.extend(format!("\x1b[{pre}{spec}{post}mx\u{e9}\x1b[1m!").into_bytes());
+                out.push(a);
+            }
+        }
+    }
+    out
 }
 
 #[derive(Clone, Debug)]
@@ -183,7 +237,7 @@ fn check_case(c: &Case, acc: &mut Acc) -> Verdict {
 fn run(args: &Args, rep: &mut Report) {
     let tier = args.tier;
     rep.assume("a terminal has one underline style at a time: 4, 21 and 4:n replace each other (kitty/xterm); the reference interpreter and, since the F18 repair, the extractor agree on that");
-    rep.assume("codes outside the property's list (blink, 22-29, 59, colour values > 255, truncated extended colours, more than 32 parameter values) are not generated");
+    rep.assume("codes outside the property's list (blink, 22-29, 59, truncated extended colours, more than 32 parameter values) are not generated");
 
     // exhaustive: 1..3 groups
     let g = REP_GROUPS.len();
@@ -238,6 +292,34 @@ fn run(args: &Args, rep: &mut Report) {
         if failed {
             break;
         }
+    }
+
+    {
+        let streams = out_of_range_streams();
+        let total = streams.len();
+        let accs = rt::par(n, |w| {
+            let mut acc = Acc::new();
+            for st in streams.iter().skip(w).step_by(n) {
+                acc.eval();
+                match rt::guarded(|| check_out_of_range(st)) {
+                    Ok(()) => {
+                        acc.nontrivial_distinct();
+                        acc.sample(|| json!({"text": esc(st)}));
+                    }
+                    Err(m) => {
+                        acc.fail("out-of-range-colour-values", json!({"hex": rt::hex(st), "text": esc(st)}), m);
+                        break;
+                    }
+                }
+            }
+            acc
+        });
+        rep.add(
+            "out-of-range-colour-values",
+            true,
+            &format!("{total} sequences: 38/48/58 in the ;5;n :5:n ;2;r;g;b :2:r:g:b :2::r:g:b :2:0:r:g:b spellings with an index / every non-empty set of components in 256..=65535 (and saturating), alone and between other attributes, from the default and a non-default style, fed whole and byte by byte; accepted: the colour changes nothing, or the value saturates"),
+            accs,
+        );
     }
 
     let mk = move |cfg: SgrStreamCfg| {
@@ -297,6 +379,9 @@ fn replay(sub: &str, case: &Value) -> Result<(), String> {
         return checks::oracle::fuzz_sgr(&vcore::drive::case_bytes(case));
     }
     let bytes = vcore::drive::case_bytes(case);
+    if sub == "out-of-range-colour-values" {
+        return check_out_of_range(&bytes);
+    }
     if sub == "exhaustive-groups" {
         if let Some(gs) = case.get("groups").and_then(|g| g.as_array()) {
             let owned: Vec<String> = gs.iter().filter_map(|g| g.as_str()).map(|s| s.to_owned()).collect();
